@@ -59,7 +59,13 @@ NON_ASCII = ("from typing import List\nfrom nada_dsl import *\n\n\n# \u2192 \u54
              "    a = SecretInteger(Input(name='a', party=p, doc='montant \u2192 \u5408\u8a08 \u2014 \u03b1'))\n"
              "    b = SecretInteger(Input(name='b', party=p, doc='caf\u00e9'))\n"
              "    outs: List[Output] = [Output(a * b, 'o', p)]\n    return outs\n")
-HEAVY = ("deep-expression", "non-ascii")
+# a file saved with a byte order mark; a file in another encoding declared by a coding cookie (files only)
+BOM = "\ufeff" + NON_ASCII
+COOKIE = ("# -*- coding: latin-1 -*-\nfrom typing import List\nfrom nada_dsl import *\n\n\n# caf\u00e9 cr\u00e8me\ndef nada_main():\n    p = Party(name='P0')\n"
+          "    a = SecretInteger(Input(name='a', party=p, doc='caf\u00e9'))\n    b = SecretInteger(Input(name='b', party=p))\n"
+          "    outs: List[Output] = [Output(a - b, 'o', p)]\n    return outs\n")
+FILE_ONLY = ("multi-file", "coding-cookie")
+HEAVY = ("deep-expression", "non-ascii", "byte-order-mark", "coding-cookie")
 NAMES = ["prog.py", "my-prog.py", "my.prog.py", "json.py", "os.py", "typing.py", "nada_dsl.py", "base64.py", "temp_program.py",
          "traceback.py", "nada_dsl_prog.py", "inspect.py"]
 
@@ -104,6 +110,8 @@ def run(ctx):
     texts["nested-functions-same-name"] = NESTED_SAME_NAME
     texts["deep-expression"] = DEEP
     texts["non-ascii"] = NON_ASCII
+    texts["byte-order-mark"] = BOM
+    texts["coding-cookie"] = COOKIE
     seeds = ["0", "1", "12345"] if quick else ["0", "1", "2", "12345", "random"]
     names = NAMES[:7] if quick else NAMES
     seeds = seeds + (["7", "99"] if quick else ["7", "99", "31337"])
@@ -119,7 +127,7 @@ def run(ctx):
                 pd = os.path.join(d, pn, name.replace(".", "_"))
                 os.makedirs(pd, exist_ok=True)
                 path = os.path.join(pd, name)
-                open(path, "w", encoding="utf-8").write(text)
+                open(path, "w", encoding=("latin-1" if pn == "coding-cookie" else "utf-8")).write(text)
                 if pn == "multi-file":
                     for hn, ht in HELPERS.items():
                         open(os.path.join(pd, hn), "w").write(ht)
@@ -132,8 +140,8 @@ def run(ctx):
                         if pn == "non-ascii":
                             for enc in ("ascii", "cp1252", "latin-1"):
                                 jobs.append((pn, "cli-path@" + enc, name, seed, tm, ["-m", "nada_dsl.compile", path]))
-            if pn == "multi-file":
-                continue          # helper modules cannot be found from a base64 string
+            if pn in FILE_ONLY:
+                continue          # helper modules cannot be found from a base64 string; a string has no encoding declaration
             for seed in (seeds[:2] if pn in HEAVY else seeds):
                 for tm in ("", "1"):
                     jobs.append((pn, "cli-s", "-", seed, tm, ["-m", "nada_dsl.compile", "-s", b64]))
@@ -164,14 +172,14 @@ def run(ctx):
     # reference outcome of each program: the base64-string API in a fresh process
     ref = {}
     for pn in texts:
-        o = by[(pn, "api-string", "-", seeds[0], "")] if pn != "multi-file" else by[(pn, "api-script", names[0], seeds[0], "")]
+        o = by[(pn, "api-string", "-", seeds[0], "")] if pn not in FILE_ONLY else by[(pn, "api-script", names[0], seeds[0], "")]
         ref[pn] = ("ok", strip_loc(json.loads(o.strip()[3:]))) if o.startswith("OK ") else ("exc", o.strip())
     cli_cells = []
     problems = []
     # programs whose nada_main returns its outputs normally: the reference itself must be a MIR
     for pn in texts:
-        if (pn.startswith("accepted-") or pn in ("multi-file", "nested-functions-same-name", "deep-expression", "non-ascii")) and ref[pn][0] != "ok":
-            problems.append(((pn, "api-string" if pn != "multi-file" else "api-script", "-", seeds[0], ""),
+        if (pn.startswith("accepted-") or pn in ("multi-file", "nested-functions-same-name", "deep-expression", "non-ascii", "byte-order-mark", "coding-cookie")) and ref[pn][0] != "ok":
+            problems.append(((pn, "api-string" if pn not in FILE_ONLY else "api-script", "-", seeds[0], ""),
                              f"a program whose nada_main returns outputs normally is not compiled: {ref[pn][1][:160]}"))
     for (pn, entry, name, seed, tm), out in by.items():
         kind, val = ref[pn]
